@@ -231,6 +231,9 @@ def run(ctx, repo):
         'algorithm itself and the parse/format inequality are value-level string arithmetic and are not decided.')
     ctx.rule('R1', 'no float in repr/str/%s/%r notation reaches round_up_str_num; fixed notation with >= 5 decimals is the accepted source')
     ctx.rule('R2', 'parse_hms / str2num raise only ValueError on str input; both separators are tried; sexagesimal weights are 60')
+    ctx.rule('R5', 'parse_hms / str2num: no arithmetic mixes an unbounded int from the text with a float (implicit conversion -> OverflowError) '
+                   'outside a handler that converts OverflowError to ValueError; no int() of a float')
+    ctx.rule('R6', "round_up_str_num: the integer part taken from split('.') may be empty; every path to the return tests or rebuilds it")
     ctx.rule('R4', 'round_up_str_num: a length derived from a digit string is not used to slice the string after it was re-built (carry that adds a digit)')
     ctx.rule('R3', 'seconds and minutes lie in [0,59] at every formatting statement; two-digit padding; precision guard 0..3 -> ValueError')
     # ---- R1
@@ -301,6 +304,67 @@ def run(ctx, repo):
     scan_block(rus.body)
     if not any(f.rule == 'R4' for f in ctx.findings):
         ctx.ok('R4', 'round_up_str_num: no length is used after its string was re-built (%d length definitions)' % n_len)
+    # ---- R6 the integer part taken from split('.') may be empty ('.5'); every path to a return that prints it examines or rebuilds it
+    from ..cfg import CFG
+    ivar = None
+    for n in ast.walk(rus):
+        if isinstance(n, ast.Assign) and isinstance(n.targets[0], (ast.Tuple, ast.List)) and isinstance(n.value, ast.Call) \
+                and isinstance(n.value.func, ast.Attribute) and n.value.func.attr == 'split' and n.targets[0].elts \
+                and isinstance(n.targets[0].elts[0], ast.Name):
+            ivar = n.targets[0].elts[0].id
+    if ivar is None:
+        ctx.info('round_up_str_num: integer part is not taken from a split(); R6 not instantiated')
+    else:
+        def mentions(e):
+            return any(isinstance(x, ast.Name) and x.id == ivar for x in ast.walk(e))
+
+        def nonempty(e):
+            if isinstance(e, ast.Constant):
+                return isinstance(e.value, str) and e.value != ''
+            if isinstance(e, ast.Call) and call_name(e) in ('str', 'repr'):
+                return True
+            if isinstance(e, ast.IfExp):
+                # `X if i else '1'`: the emptiness of the integer part is examined
+                return mentions(e.test) and (nonempty(e.orelse) or nonempty(e.body))
+            if isinstance(e, ast.BinOp) and isinstance(e.op, ast.Add):
+                return nonempty(e.left) or nonempty(e.right)
+            return False
+        g = CFG(rus)
+        state = {g.entry.id: False}
+        work = [g.entry]
+        reported = set()
+        while work:
+            nd = work.pop()
+            st_in = state[nd.id]
+            out = st_in
+            a = nd.ast
+            if nd.kind == 'stmt' and isinstance(a, (ast.Assign, ast.AugAssign)):
+                tg = a.targets if isinstance(a, ast.Assign) else [a.target]
+                flat = []
+                for t in tg:
+                    flat += t.elts if isinstance(t, (ast.Tuple, ast.List)) else [t]
+                if any(isinstance(t, ast.Name) and t.id == ivar for t in flat):
+                    if isinstance(a, ast.Assign) and nonempty(a.value):
+                        out = False
+                    elif isinstance(a, ast.AugAssign) or mentions(a.value):
+                        out = st_in           # derived from itself: emptiness carried along
+                    else:
+                        out = True            # fresh from the text
+            elif nd.kind == 'test' and mentions(a):
+                out = False                   # the path examined it
+            elif nd.kind == 'return' and st_in and a.value is not None and mentions(a.value) and nd.id not in reported:
+                reported.add(nd.id)
+            for suc, _lab in nd.succ:
+                if suc.id not in state or (out and not state[suc.id]):
+                    state[suc.id] = out or state.get(suc.id, False)
+                    work.append(suc)
+        if reported:
+            ctx.finding('R6', '%s::round_up_str_num::integer part may be empty at return' % UTILS, UTILS, rus.lineno,
+                        "round_up_str_num returns the integer part `%s` taken from split('.') on a path that neither tests it for emptiness nor "
+                        "rebuilds it (other paths do): a string without digits before the point whose dropped digits are all zero returns an "
+                        "empty integer part" % ivar, "round_up_str_num('.0', 0) == ''   ('.5', 0 gives '1'; '.00', 1 gives '.0')")
+        else:
+            ctx.ok('R6', 'round_up_str_num: `%s` is examined or rebuilt on every path to the return (%d CFG nodes)' % (ivar, len(g.nodes)))
     # ---- R2
     s2n = mod.func('str2num')
     ph = mod.func('parse_hms')
@@ -313,12 +377,105 @@ def run(ctx, repo):
                                 '%s raises %s for unparsable text; the contract is ValueError and nothing else' % (fn.name, nm))
             if isinstance(n, ast.ExceptHandler):
                 caught = ast.unparse(n.type) if n.type is not None else 'everything'
-                if caught not in ('ValueError',):
+                names = {x.id for x in ast.walk(n.type) if isinstance(x, ast.Name)} if n.type is not None else {'everything'}
+                converts = bool(n.body) and isinstance(n.body[-1], ast.Raise) and n.body[-1].exc is not None and (
+                    call_name(n.body[-1].exc) if isinstance(n.body[-1].exc, ast.Call) else getattr(n.body[-1].exc, 'id', None)) == 'ValueError'
+                if names <= {'ValueError', 'OverflowError', 'ArithmeticError'} and 'ValueError' in names and converts:
+                    pass
+                elif caught not in ('ValueError',):
                     ctx.finding('R2', '%s::%s::except %s' % (UTILS, fn.name, caught), UTILS, n.lineno,
                                 '%s catches %s: errors other than ValueError are converted or swallowed' % (fn.name, caught))
                 elif not n.body or not isinstance(n.body[-1], (ast.Raise, ast.Return)):
                     ctx.finding('R2', '%s::%s::handler falls through' % (UTILS, fn.name), UTILS, n.lineno,
                                 '%s swallows the ValueError and continues' % fn.name)
+    # ---- R5 implicit conversions: an int read from text has no bound, and int<->float conversion of an unbounded value raises
+    # OverflowError (mixed int/float arithmetic converts the int; int(float) fails on inf).  Kinds per name, flow-insensitive.
+    n_arith = 0
+    for fn in (s2n, ph):
+        kinds = {}
+        params = {a.arg for a in fn.args.args}
+
+        def kind(e):
+            if isinstance(e, ast.Constant):
+                if isinstance(e.value, bool) or isinstance(e.value, int):
+                    return {'int'}
+                if isinstance(e.value, float):
+                    return {'float'}
+                return set()
+            if isinstance(e, ast.Name):
+                return set(kinds.get(e.id, set()))
+            if isinstance(e, ast.Call):
+                nm = call_name(e)
+                if nm == 'str2num' or nm == 'parse_hms':
+                    return {'bigint', 'float'}
+                if nm == 'int':
+                    return {'bigint'}
+                if nm == 'float':
+                    return {'float'}
+                if nm in ('len', 'ord'):
+                    return {'int'}
+                return set()
+            if isinstance(e, ast.BinOp):
+                a, b = kind(e.left), kind(e.right)
+                if isinstance(e.op, ast.Div):
+                    return {'float'} if (a or b) else set()
+                out = a | b
+                if 'bigint' in out:
+                    out.discard('int')
+                return out
+            if isinstance(e, ast.UnaryOp):
+                return kind(e.operand)
+            if isinstance(e, ast.IfExp):
+                return kind(e.body) | kind(e.orelse)
+            return set()
+        for _ in range(6):
+            for n in ast.walk(fn):
+                if isinstance(n, ast.Assign) and len(n.targets) == 1 and isinstance(n.targets[0], ast.Name):
+                    kinds.setdefault(n.targets[0].id, set()).update(kind(n.value))
+                if isinstance(n, ast.AugAssign) and isinstance(n.target, ast.Name):
+                    k = kinds.setdefault(n.target.id, set())
+                    k.update(kind(n.value))
+                    if 'bigint' in k:
+                        k.discard('int')
+
+        def guarded(n):
+            c, p = n, getattr(n, '_parent', None)
+            while p is not None and p is not fn:
+                if isinstance(p, ast.Try) and any(c is s0 for s0 in p.body):
+                    for h in p.handlers:
+                        names = {x.id for x in ast.walk(h.type) if isinstance(x, ast.Name)} if h.type is not None else {'BaseException'}
+                        if names & {'OverflowError', 'ArithmeticError', 'Exception', 'BaseException'}:
+                            return True
+                c, p = p, getattr(p, '_parent', None)
+            return False
+        for n in ast.walk(fn):
+            pair = None
+            if isinstance(n, ast.BinOp) and isinstance(n.op, (ast.Add, ast.Sub, ast.Mult, ast.Div, ast.FloorDiv, ast.Mod)):
+                pair = (kind(n.left), kind(n.right), n)
+            elif isinstance(n, ast.AugAssign) and isinstance(n.op, (ast.Add, ast.Sub, ast.Mult, ast.Div, ast.FloorDiv, ast.Mod)):
+                pair = (kind(n.target) if not isinstance(n.target, ast.Name) else set(kinds.get(n.target.id, set())), kind(n.value), n)
+            if pair is not None:
+                a, b, node = pair
+                if not a and not b:
+                    continue
+                n_arith += 1
+                mixed = ('bigint' in a and 'float' in b) or ('float' in a and 'bigint' in b) or (
+                    isinstance(getattr(node, 'op', None), ast.Div) and 'bigint' in (a | b))
+                if mixed and not guarded(node):
+                    st = node
+                    while not isinstance(st, ast.stmt):
+                        st = st._parent
+                    ctx.finding('R5', '%s::%s::unbounded int meets float in %s' % (UTILS, fn.name, stmt_key(st)), UTILS, node.lineno,
+                                '%s: `%s` combines an integer read from the text (no bound on its size) with a float; the implicit conversion '
+                                'raises OverflowError for an integer beyond the float range, and no enclosing handler turns it into '
+                                'ValueError' % (fn.name, unparse(st)), "parse_hms('%s:0.5')" % ('9' * 400))
+                elif mixed:
+                    ctx.ok('R5', '%s: `%s` may overflow; OverflowError is handled' % (fn.name, unparse(node)[:60]))
+            if isinstance(n, ast.Call) and call_name(n) == 'int' and n.args and 'float' in kind(n.args[0]) and not guarded(n):
+                ctx.finding('R5', '%s::%s::int() of a float' % (UTILS, fn.name), UTILS, n.lineno,
+                            '%s: `%s` converts a float read from the text to int; inf raises OverflowError, which no handler turns into '
+                            'ValueError' % (fn.name, unparse(n)), "parse_hms('inf')")
+    ctx.floor('arithmetic sites typed in str2num / parse_hms', n_arith, 2)
     # str2num: int first (integers stay integers), float second
     tr = [n for n in s2n.body if isinstance(n, ast.Try)]
     ok = False
